@@ -58,18 +58,22 @@ def tier_sizes(tier, quick, thorough):
     return thorough if tier == 'thorough' else quick
 
 
-def big_files_via_cli(chk, exe, wd):
+def big_files_via_cli(chk, exe, wd, huge_pool=False):
     """programs larger than the file buffers saved and loaded through the real CLI, compared with the in-memory cycle (FMLObservations)"""
     # large files through the real command line: `fml compile -o` / `fml execute` / `fml disassemble` read and write through buffered files
     import subprocess
     obs = []
-    bigs = pool.big_programs()
+    bigs = pool.big_programs(huge_pool)
     bouts = compile_pool(exe, bigs, wd, ['run', 'bytes2'], 'c03big', budget=100000)
     for i, o in enumerate(bouts):
         if 'bytes' not in o:
             continue
         name = bigs[i]['name']
         run = o.get('run') or {}
+        if 'expect' in bigs[i] and (not run.get('ok') or bytes(run.get('out', [])) != bigs[i]['expect']):
+            chk.violation('%s: the program saved and loaded in-process printed %r, not %r' % (name, bytes(run.get('out', []))[:60], bigs[i]['expect']),
+                          {'program': name, 'source': bigs[i]['text'][-200:], 'run': {'ok': run.get('ok'), 'out': run.get('out', [])[:200]},
+                           'signature': {'kind': 'big-program-outcome', 'program': name}})
         obs.append({'key': name + ' :: outcome', 'val': {'ok': bool(run.get('ok')), 'out': hashlib.sha1(bytes(run.get('out', []))).hexdigest()}, 'cfg': 'in-process load from memory'})
         obs.append({'key': name + ' :: bytes', 'val': {'d': hashlib.sha1(bytes(o['bytes'])).hexdigest()}, 'cfg': 'in-process serialize to memory'})
         obs.append({'key': name + ' :: bytes', 'val': {'d': hashlib.sha1(bytes(o.get('bytes2', []))).hexdigest()}, 'cfg': 'in-process save of the loaded program'})
@@ -145,7 +149,7 @@ def c04(tier):
     chk.traces += judge_bytecode(chk, xr, wd, 'c04b', names, {'decodable', 'no_trailing', 'loads', 'loaded_same'})
     if gen:
         chk.sample({'program': 'spec-generated:0', 'bytes': gen[0]['bytes'][:40]})
-    chk.notes['large_files_through_cli'] = big_files_via_cli(chk, exe, wd)
+    chk.notes['large_files_through_cli'] = big_files_via_cli(chk, exe, wd, huge_pool=(tier == 'thorough'))
     chk.notes['spec_generated_programs'] = len(gen)
     chk.notes['compiled_programs'] = len(recs)
     chk.assumptions = ['TLC, the Json/IOUtils community modules', 'the harness projection absprog.rs of an in-memory Program']
@@ -181,7 +185,7 @@ def c03(tier):
     for r in xr:
         chk.count(hashlib.sha1(bytes(r['bytes'])).hexdigest())
     chk.traces += judge_bytecode(chk, xr, wd, 'c03b', names, {'loads', 'loaded_same', 'loaded_layout', 'resave_same'})
-    nbig = big_files_via_cli(chk, exe, wd)
+    nbig = big_files_via_cli(chk, exe, wd, huge_pool=True)
     chk.notes['large_files_through_cli'] = nbig
     chk.notes['spec_generated_programs'] = len(gen)
     chk.notes['compiled_programs'] = len(recs)
